@@ -123,6 +123,16 @@ func runC18(e *core.Env) error {
 				return err
 			}
 			tasks = append(tasks, t)
+			if i == 0 {
+				// the SAME integration also runs on a second source (one declaration, two tasks): each
+				// task decodes with its own buffers
+				t2, err := w.addTask(fmt.Sprintf("t%db", i+1), root.Integrations[i], "src2", 1, 0, conc+rr.Intn(4), conc)
+				if err != nil {
+					w.close()
+					return err
+				}
+				tasks = append(tasks, t2)
+			}
 		}
 		// (B) all tasks step concurrently while the chain moves
 		var wg sync.WaitGroup
